@@ -1,11 +1,13 @@
 """registers every sidecar contract (callee contracts of one property are needed by the callers of another)"""
 import importlib
 
-MODULES = ["C06", "C01", "C05", "C02", "C07", "C08", "C17"]
+MODULES = ["C06", "C01", "C05", "C02", "C07", "C08", "C17", "C09"]
 
 
 def register(ix):
     from pyvc import speclib
     speclib.register(ix)
+    from pyvc import lib
+    lib.register(ix)
     for m in MODULES:
         importlib.import_module("contracts." + m).register(ix)
